@@ -53,6 +53,7 @@ type Client struct {
 	cookiejarFactory        func() *cookiejar.Jar
 	trace                   bool
 	disableAutoReadResponse bool
+	digestAuth              bool // SetCommonDigestAuth: see Request.digestAuth
 	commonErrorType         reflect.Type
 	retryOption             *retryOption
 	jsonMarshal             func(v interface{}) ([]byte, error)
@@ -846,6 +847,7 @@ func (c *Client) SetCommonBasicAuth(username, password string) *Client {
 //
 // See `Request.SetDigestAuth`
 func (c *Client) SetCommonDigestAuth(username, password string) *Client {
+	c.digestAuth = true
 	c.OnAfterResponse(handleDigestAuthFunc(username, password))
 	return c
 }
